@@ -56,7 +56,16 @@ def step_record(mc) -> dict:
     return rec
 
 
-def run_traced(mc, nsteps: int, on_step=None) -> list:
+def apply_changes(mc, changes, step_abs):
+    """The user's own schedule: settings changed on the simulation object right before absolute step `step_abs`."""
+    for ch in changes or []:
+        if ch["at"] == step_abs:
+            for k, v in ch["set"].items():
+                if hasattr(type(mc), k):
+                    setattr(mc, k, np.array(v, dtype=float) if isinstance(v, list) else v)
+
+
+def run_traced(mc, nsteps: int, on_step=None, changes=None) -> list:
     out = []
     it = mc.irun(nsteps)
     k = 0
@@ -65,6 +74,7 @@ def run_traced(mc, nsteps: int, on_step=None) -> list:
             sg = next(it)
         except StopIteration:
             break
+        apply_changes(mc, changes, int(mc.step_count))
         if on_step:
             on_step(k)
         for _ in sg:
@@ -94,7 +104,7 @@ def first_diff(a: dict, b: dict) -> str | None:
     return None
 
 
-def resume_inprocess(driver: str, text: str, calc_spec: dict, total_steps: int):
+def resume_inprocess(driver: str, text: str, calc_spec: dict, total_steps: int, changes=None):
     """The documented way: read_json -> Cls.from_dict -> attach calculator -> run."""
     from ase.io.jsonio import read_json
     from simkit.world import driver_class
@@ -104,7 +114,7 @@ def resume_inprocess(driver: str, text: str, calc_spec: dict, total_steps: int):
     mc = cls.from_dict(data)
     mc.atoms.calc = calcs.make_calc(calc_spec)
     k = int(mc.step_count)
-    return k, run_traced(mc, total_steps - k)
+    return k, run_traced(mc, total_steps - k, None, changes)
 
 
 class C07(HistoryCampaign):
@@ -148,6 +158,23 @@ class C07(HistoryCampaign):
                                         "mode": rnd.choice(["a", "w"])},
                        "logging_interval": rnd.choice([1, 1, 2, 3])}
         sc["files"]["logging_mode"] = sc["files"]["restart_file"]["mode"]
+        if sc["driver"] not in ("ForceBias", "AdaptiveForceBias") and rnd.random() < 0.35:
+            # the user changes settings on the running simulation; later restart files must carry the new values
+            n = sum(s["n"] for s in sc["steps"])
+            chs = []
+            for _ in range(rnd.randint(1, 2)):
+                st = {"temperature": gen.gen_temperature(rnd)}
+                if sc["driver"] in ("Isobaric", "Isotension") and rnd.random() < 0.6:
+                    st["pressure"] = gen.logu(rnd, 1e-4, 1e-1)
+                if sc["driver"] == "Isotension" and rnd.random() < 0.5:
+                    a = [gen.rfloat(rnd, -0.05, 0.05, 5) for _ in range(6)]
+                    st["external_stress"] = [[a[0], a[3], a[4]], [a[3], a[1], a[5]], [a[4], a[5], a[2]]]
+                if sc["driver"] == "GrandCanonical" and rnd.random() < 0.6:
+                    st["chemical_potential"] = gen.rfloat(rnd, -0.5, 0.5, 4)
+                if sc["driver"] == "GrandCanonical" and rnd.random() < 0.3:
+                    st["accessible_volume"] = gen.logu(rnd, 50.0, 500.0)
+                chs.append({"at": rnd.randint(1, max(1, n - 1)), "set": st})
+            sc["changes"] = chs
         sc["fresh"] = rnd.random() < (0.04 if tier == "quick" else 0.1)
         sc["fresh_first_import"] = rnd.choice(PUBLIC_MODULES)
         return sc
@@ -192,7 +219,7 @@ class C07(HistoryCampaign):
         if drv in ("ForceBias", "AdaptiveForceBias"):
             return self._forcebias(sc, w, disk, res)
         try:
-            ref = run_traced(w.mc, n, on_step)
+            ref = run_traced(w.mc, n, on_step, sc.get("changes"))
         except Exception as e:  # noqa: BLE001
             info = classify_exception(e)
             w.mc.close()
@@ -227,7 +254,7 @@ class C07(HistoryCampaign):
             if fresh:
                 k, trace = resume_fresh(sc, text, n)
             else:
-                k, trace = resume_inprocess(drv, text, sc["calc"], n)
+                k, trace = resume_inprocess(drv, text, sc["calc"], n, sc.get("changes"))
         except FreshFailure as e:
             res.violations.append(Violation("C07", "resume_failed", f"driver={drv}|type={e.etype}|where={e.where}|recovery=fresh",
                                             e.text, at=f"fresh interpreter, first import {sc.get('fresh_first_import')}"))
@@ -336,7 +363,7 @@ class FreshFailure(Exception):
 
 
 def resume_fresh(sc, text, total_steps):
-    job = {"driver": sc["driver"], "text": text, "calc": sc["calc"], "total": total_steps,
+    job = {"driver": sc["driver"], "text": text, "calc": sc["calc"], "total": total_steps, "changes": sc.get("changes"),
            "first_import": sc.get("fresh_first_import", "quansino.mc")}
     with tempfile.NamedTemporaryFile("w", suffix=".json", prefix="qjob_", delete=False) as f:
         json.dump(job, f)
